@@ -162,3 +162,89 @@ func VerifC02_Levels(cs int) {
 	VsAssert("normal-form-decodes-to-same-tree", vSameDocument(o.doc, o2.doc))
 	VsAssert("normal-form-is-a-fixpoint", VsStrEq(o2.doc.String(), norm))
 }
+
+// VerifC02_Shape: longer files (cs%3+4 = 4, 5 or 6 lines; thorough adds 7) in which only the level
+// digits are symbolic (0..3): every walk through the levels - descents, dedents by one or several
+// levels, too-deep lines after a dedent - against the tree the levels dictate. cs/3%2 =
+// AllowInvalidIndents, cs/6%2 = the first line is a family (so that HUSB / CHIL lines appear).
+func VerifC02_Shape(cs int) {
+	L := cs%3 + 4
+	if cs >= 12 {
+		L = 7
+	}
+	invalidIndents := cs/3%2 == 1
+	withFamily := cs/6%2 == 1
+	tags := []string{"_A", "_B", "NOTE", "_D", "NAME", "_F", "_G"}
+	if withFamily {
+		tags = []string{"FAM", "HUSB", "NOTE", "CHIL", "_E", "WIFE", "_G"}
+	}
+	text := ""
+	var roots, open []*vRefNode
+	problem := false
+	for i := 0; i < L; i++ {
+		lvl := 0
+		if i > 0 {
+			lvl = VsInt(fmt.Sprintf("l%d.level", i), 0, 3)
+		}
+		value := fmt.Sprintf("v%d", i)
+		line := VsDecimal(lvl, 1) + " " + tags[i] + " " + value + "\n"
+		if i == 0 && withFamily {
+			line, value = "0 @F1@ FAM\n", ""
+		}
+		text += line
+		if problem {
+			continue
+		}
+		node := &vRefNode{tag: tags[i], value: value}
+		if i == 0 && withFamily {
+			node.pointer = "F1"
+		}
+		for k := 0; k <= 3; k++ {
+			if lvl != k {
+				continue
+			}
+			switch {
+			case k == 0:
+				roots = append(roots, node)
+				open = []*vRefNode{node}
+			case k <= len(open):
+				p := open[k-1]
+				p.children = append(p.children, node)
+				open = append(open[:k], node)
+			case !invalidIndents:
+				problem = true
+			default: // too deep, tolerated: a child of the deepest open node
+				p := open[len(open)-1]
+				p.children = append(p.children, node)
+				open = append(open, node)
+			}
+			break
+		}
+	}
+	o := vDecode(text, false, invalidIndents)
+	VsObserve(text)
+	VsObserve(o.panicked)
+	VsObserve(o.err != nil)
+	VsReach("shape-decoded")
+	vCheckTotality(o, invalidIndents, text)
+	if problem {
+		VsAssert("too-deep-line-is-not-accepted-silently", o.panicked || o.err != nil)
+		return
+	}
+	VsAssert("well-levelled-file-is-accepted", !o.panicked && o.err == nil && o.doc != nil)
+	if o.panicked || o.err != nil || o.doc == nil {
+		return
+	}
+	VsAssert("shape-root-count-as-dictated", len(o.doc.Nodes()) == len(roots))
+	if len(o.doc.Nodes()) != len(roots) {
+		return
+	}
+	same := true
+	for i, n := range o.doc.Nodes() {
+		same = VsAnd(same, vSameAsRef(n, roots[i]))
+	}
+	VsAssert("shape-tree-as-dictated-by-levels", same)
+	norm := o.doc.String()
+	o2 := vDecode(norm, false, invalidIndents)
+	VsAssert("shape-normal-form-is-a-fixpoint", !o2.panicked && o2.err == nil && o2.doc != nil && o2.doc.String() == norm)
+}
